@@ -5,6 +5,7 @@ import PqV.Lemmas.KBitpacked
 import PqV.Lemmas.KHybrid
 import PqV.Lemmas.KDelta
 import PqV.Lemmas.KPlain
+import PqV.Lemmas.KDeltaLoop
 /-!
 # C12 — native code stays inside its buffers and the process never crashes
 Model-level safety: the code-shaped models return an explicit `Fault` for every load or store
@@ -93,6 +94,21 @@ theorem readBitpacked1_safe (buf : List Nat) (hbytes : ∀ b ∈ buf, b < 256) (
 theorem unpackByteArray_safe (items : List (List Nat)) (hl : ∀ it ∈ items, it.length < 2 ^ 31) (pre tail : List Nat) :
     ∃ r, unpackByteArray (pre ++ packByteArray items ++ tail) pre.length items.length = .ok r :=
   ⟨_, unpackByteArray_roundtrip items hl pre tail⟩
+
+/-- `delta_binary_unpack` on every conforming stream with miniblock widths ≤ 28 whose announced count
+    is covered by its blocks: header, width bytes and packed miniblocks are read inside the buffer, the
+    values are stored inside the output array (what does not fit is dropped by `write_int/long`), no
+    out-of-range shift -/
+theorem deltaBinaryUnpack_safe (pre post : List Nat) (longval : Bool) (blockSize mpb cnt : Nat) (first : Int) (blocks : List Block)
+    (hbs : blockSize < 2 ^ 64) (hmpb64 : mpb < 2 ^ 64) (hfirst : okI64 first)
+    (hmpb : 1 ≤ mpb) (hvpm : 1 ≤ blockSize / mpb) (hcnt1 : 1 ≤ cnt) (hcnt : cnt < 2 ^ 63)
+    (hblocks : ∀ b ∈ blocks, BlockOk (blockSize / mpb) mpb b)
+    (hroom : cnt ≤ blockSize / mpb * mpb * blocks.length)
+    (hbytes : ∀ b ∈ pre ++ encStreamP blockSize mpb cnt first blocks ++ post, b < 256) :
+    ∃ r, deltaBinaryUnpack (pre ++ encStreamP blockSize mpb cnt first blocks ++ post) pre.length cnt longval = .ok r := by
+  obtain ⟨slots, loc', h, _⟩ := deltaBinaryUnpack_concrete pre post longval blockSize mpb cnt first blocks hbs hmpb64 hfirst
+    hmpb hvpm hcnt1 hcnt hblocks hroom hbytes
+  exact ⟨_, h⟩
 
 /-- …and the over-read is real at model level: a length prefix of 5 with 2 bytes behind it faults -/
 example : unpackByteArray [5, 0, 0, 0, 1, 2] 0 1 = .error (.oobRead 8 6) := by decide
